@@ -210,7 +210,8 @@ def run(ctx: core.Ctx, only=None) -> core.Result:
         [gen_case(ctx.rng, ctx.quick) for _ in range(ctx.scale(24, 250))]
     for case in cases:
         case = {k: (tuple(case[k]) if k == 'beta_lim' else case[k]) for k in keys}
-        run_case(ctx, res, case, lines, post)
+        with core.guarded(res, 'scenario-raised', case):
+            run_case(ctx, res, case, lines, post)
     # model rule vs implementation rule for the coincidence tolerance: the implementation's decision is observable as
     # "prediction at x equals the node's prediction" only indirectly; we compare the generated tolerance with what a
     # scale-free rule would need: snapTol(width) == width * snapTol(1)
